@@ -4,7 +4,7 @@ PROP = {
     "id": "C19",
     "props_file": "coq/C19/Props.v",
     "props_module": "C19.Props",
-    "coq_targets": ["C19/Props.vo", "C19/Multi.vo", "C19/MultiTx.vo", "C19/ProofsMulti.vo", "C19/BaseFee.vo", "C19/ProofsBaseFee.vo"],
+    "coq_targets": ["C19/Props.vo", "C19/Multi.vo", "C19/MultiTx.vo", "C19/ProofsMulti.vo", "C19/BaseFee.vo", "C19/ProofsBaseFee.vo", "C19/ProofsAgree.vo"],
     "uses_kernels": False,
     "allowed_axioms": [],
     "suites": [{
@@ -55,9 +55,9 @@ PROP = {
              "(+0,+1)/balance/balance+1, nonce +-1, sender without account; one case in four starts with a valid set-three-slots / clear-three-slots "
              "pair. Suite evmmulti: one cosmos tx with 2-4 MsgEthereumTx (one or mixed senders; transfers, store calls, revert, out of "
              "gas, creation, precompile deposit +- revert; nonce gap / intrinsic-gas error / price below base fee now and then); first 4 cases = "
-             "directed scenario [create, then more messages of the same sender] tagged kf-C19-multimsg-create-nonce-reset, the random stream never "
+             "directed scenario [create, then more messages of the same sender] tagged regress-C19-multimsg-create-nonce-reset, the random stream never "
              "produces that shape (since the repair e884872 it does). Suite evmfee case 0 = directed scenario of finding F2 (fee above balance, then a "
-             "transfer that exactly fits the block), cases containing a fee-above-balance tx carry tag kf-C19-rejected-consumes-block-gas. Suite "
+             "transfer that exactly fits the block), cases containing a fee-above-balance tx carry tag regress-C19-rejected-consumes-block-gas. Suite "
              "basefee: per case fee-market params (NoBaseFee, base fee, elasticity 1-4, denominator 1/2/8/50, MinGasPrice, MinGasMultiplier), "
              "consensus MaxGas -1/200k-600k, block A with 0-3 real transfers whose gas limits land the wanted gas on target/+-1/anywhere, then "
              "EndBlock and the next BeginBlock. distinct = sha1 of the case; non-trivial = at least one transaction was included"),
@@ -73,8 +73,10 @@ PROP = {
                     "error return fails the whole tx) with the accounting/nonce/zero-sum/solvency theorems lifted to lists of such transactions, "
                     "tied by suite evmmulti (corr + summed statement as monitor); the as-found sequence rule is refuted (F1, fixed e884872). "
                     "Blocks are chained by a model of the fee market (BaseFee.v: EndBlock gas wanted, CalculateBaseFee) tied by suite basefee; "
-                    "every included tx of every block pays at least the base fee derived from the previous block. Finding F2: a tx refused for "
-                    "balance-below-fee consumes block gas (monitor blockgas, refuted theorem, directed case, repair patch)."),
+                    "every included tx of every block pays at least the base fee derived from the previous block. Finding F2 (fixed 07834a8): a tx refused for "
+                    "balance-below-fee consumed block gas; monitor blockgas now demands 0 for every named admission check, the directed case is a "
+                    "regression scenario, C19_rejected_block_gas is full; validateBasic refusals (reason 2) still move the block gas meter by "
+                    "the oracle input o_ctxgas (cosmos-sdk baseapp, observation R3)."),
     "trusted_base": KERNEL_TB + [
         "modelled, not verified (hand-written Gallina transcription tied by differential execution): cosmos-sdk baseapp.runTx (block gas gate, "
         "ante/msg cache branches, deferred consumeBlockGas), app/ante/evm/{eth.go,fees.go,setup_ctx.go,fee_market.go}, evmos x/evm/keeper.VerifyFee "
@@ -85,8 +87,8 @@ PROP = {
         "beforehand on a cache branch with the ante effects applied by hand (fee moved to the collector, sequence incremented)",
         "sha256 digest over raw KV stores evm, assets, delegation, operator, avs, dogfood, erc20 stands for 'every other store'",
         "x/feemarket (evmos fork) CalculateBaseFee / EndBlock / GetBaseFee and app/ante/evm/fee_market.go GasWantedDecorator: hand-transcribed in "
-        "BaseFee.v, tied by suite basefee; the single-message model and the multi-message model on one message are compared by evaluation "
-        "(agree check), not by proof",
+        "BaseFee.v, tied by suite basefee; the single-message model is PROVED to be the one-element case of the multi-message model "
+        "(C19_single_is_multi); the agree check re-evaluates it on every evmfee transaction",
         "not modelled: signature recovery, protobuf/RLP encoding, inner value transfers made by contract code "
         "(generated contracts make none), uint64 overflow of gas arithmetic, PostTxProcessing hook failure (no erc20 token pair registered), "
         "London always active (default chain config), CheckTx/ReCheckTx-only branches",
